@@ -342,7 +342,7 @@ def vm_crosscheck(cdir, tier):
         if not sh:
             return 0, 0, ""
         body = ["From Coq Require Import String List ZArith QArith.", "From GA Require Import Model.Mutator Extract.Render.",
-                "Import ListNotations.", "Local Open Scope string_scope."]
+                "Import ListNotations.", "Local Open Scope nat_scope.", "Local Open Scope string_scope."]
         exp = []
         for j, s in enumerate(sh):
             lines = s["lines"][:120]
